@@ -363,7 +363,7 @@ func runSolver(ctx context.Context, solver, script string, perCheckMs int, hardS
 		case "sat", "unsat", "unknown", "timeout":
 			res.Answers = append(res.Answers, l)
 		}
-		if strings.HasPrefix(l, "(error") && !strings.Contains(l, "model is not available") && !strings.Contains(l, "Cannot get model") && !strings.Contains(l, "cannot get model") {
+		if strings.HasPrefix(l, "(error") && !strings.Contains(l, "model is not available") && !strings.Contains(l, "Cannot get model") && !strings.Contains(l, "cannot get model") && !strings.Contains(l, "Cannot get domain elements") {
 			solverErrMu.Lock()
 			if len(solverErrs) < 20 {
 				solverErrs = append(solverErrs, solver+": "+l)
